@@ -690,6 +690,7 @@ def run(chk):
     _tailflag_rule(chk, prog)
     _depthbalance_rule(chk, prog)
     _markspill_rule(chk, prog)
+    _hookstep_rule(chk, prog)
 
 
 def _freshbudget_rule(chk, prog, cg):
@@ -980,3 +981,33 @@ def _markspill_rule(chk, prog):
 def switch_cases_local(sw):
     from jv.util import switch_cases, case_name
     return [case_name(c) for c in switch_cases(sw) if c.k == "case"]
+
+
+def _hookstep_rule(chk, prog):
+    """marshal_one / unmarshal_one carry their recursion depth in the low bits of `flags` and every nested call passes
+    flags + 1.  An abstract type's hook re-enters them through janet_marshal_janet / janet_unmarshal_janet with the
+    depth stored in the context.  That edge closes a cycle (value -> abstract -> hook -> value) which the parameter
+    analysis cannot see, because it goes through a function pointer and a struct field: if the re-entry passes
+    ctx->flags unchanged, a channel inside a channel inside a channel ... recurses without any limit."""
+    rule = "C19-HOOKSTEP"
+    chk.rule(rule, "the re-entry points for abstract-type hooks (janet_marshal_janet, janet_unmarshal_janet) pass the context's depth plus one")
+    tu = prog.tus["marsh.c"]
+    n = 0
+    for fn in tu.funcs.values():
+        if not any("JanetMarshalContext" in p["t"] for p in fn.params):
+            continue
+        for c in fn.calls("marshal_one", "unmarshal_one"):
+            n += 1
+            chk.instance(rule)
+            chk.analysed(fn)
+            a = strip_casts(c.args[-1])
+            stepped = a.k == "bin" and a.op == "+" and any(strip_casts(k).k == "int" and (strip_casts(k).v or 0) > 0 for k in a.kids) and \
+                any(y.k == "mem" and y.field == "flags" for y in a.walk())
+            if stepped:
+                chk.ok(rule, "%s: `%s`" % (fn.name, c.text()[:60]))
+            else:
+                chk.violation(rule, "marsh.c", fn.name, "unstepped-reentry", c.loc,
+                              "`%s` re-enters the recursive reader / writer from an abstract type's hook with the depth it was given, "
+                              "not one more: values nested through abstract types (a channel holding a channel holding ...) are not "
+                              "counted by the recursion guard and overflow the native stack" % c.text()[:70])
+    chk.floor(rule, 2, n)
